@@ -10,9 +10,11 @@ WT=/tmp/seed/confirm-$ID
 export CARGO_NET_OFFLINE=true
 git -C /repo worktree add -q --force $WT HEAD 2>/dev/null || true
 cd $WT && git checkout -q -- . && git clean -fdq -e target
-DEMO_CMD=$(python3 -c "import json;print(json.load(open('$SRC/meta.json')).get('demo_cmd',''))")
-DEMO_CMD=${DEMO_CMD//SEED\//$SRC\/}
-DEMO_CMD=${DEMO_CMD//cp $SRC\/*\/demo.rs/cp $SRC\/demo.rs}
+DCRATE=$(python3 -c "import json;print(json.load(open('$SRC/meta.json')).get('demo_crate','ff'))")
+DPKG=$(python3 -c "import json;print(json.load(open('$SRC/meta.json')).get('demo_package','ark-ff'))")
+DFEAT=$(python3 -c "import json;print(json.load(open('$SRC/meta.json')).get('demo_features',''))")
+# convention: demo.rs is an integration test placed at <demo_crate>/tests/seed_demo.rs
+DEMO_CMD="mkdir -p $DCRATE/tests && cp $SRC/demo.rs $DCRATE/tests/seed_demo.rs && timeout 3000 cargo test --offline -p $DPKG $DFEAT --test seed_demo"
 log=/tmp/seed/confirm-$ID.log; : > $log
 echo "## demo on clean tree: $DEMO_CMD" >> $log
 ( eval "$DEMO_CMD" ) >> $log 2>&1; CLEAN_RC=$?
